@@ -26,7 +26,7 @@ _PROPERTY.txt states a semantic property the code is meant to satisfy.
 Task: produce realistic changes ("mutants") to the project's non-test Go source that BREAK this property while the project still compiles and its existing tests still pass, each with a demonstration. Requirements for each mutant:
   * It must look like something a developer could plausibly introduce: a refactor, an optimisation, a simplification, a reordered pair of statements, a relaxed or dropped check, an off-by-one in a boundary, reuse of a pooled object a little too early, a lock or atomic narrowed, etc. Keep it small (typically 1–15 changed lines) and keep it compiling.
   * It must need something SPECIFIC to manifest — a particular interleaving, a crash or fault at a particular point, a multi-step sequence of operations, an unusual input/magnitude, or two cooperating sites that each look fine alone — not something ordinary use or the existing tests expose at once.
-  * The existing tests of every package you touch must still pass with the mutant applied (run them: `GOFLAGS=-mod=mod GOPROXY=off GOTOOLCHAIN=local go1.26 test -vet=off -count=1 ./<pkg>/` ; the `actor` package's tests take ~10–15 min, run them once per final mutant, in the background if you like; never set GOSUMDB=off). If an existing test fails, the mutant is not acceptable: change it.
+  * The existing tests of every package you touch must still pass with the mutant applied (run them: `GOFLAGS=-mod=mod GOPROXY=off GOTOOLCHAIN=local go1.26 test -vet=off -count=1 ./<pkg>/` ; the `actor` package's full test run takes 15–40 min on this shared machine: use `-run <regex>` for the tests related to the code you touch while iterating, and ONE full run with `-timeout 60m` in the background for your final mutants; these tests fail or flake on the UNMODIFIED tree here and may be ignored: TestRelocationWithConsulProvider, TestRelocationWithEtcdProvider (need Docker), TestGrain/With_TellGrain_with_mailbox_full, TestReliableEndpointShutdownStopsCompanion, TestProducerControllerDurableQueueFailures, TestBatchTellBatchAskRemote, TestRestartPreservesInitTimeout, TestNonBlockingBoundedMailbox; never set GOSUMDB=off; never use `pkill`/`killall` with a pattern (other people's processes match too) — kill by PID only). If an existing test fails, the mutant is not acceptable: change it.
   * Write a demonstration: a new Go test file (in-package is fine) or small program that FAILS (deterministically, or with overwhelming probability within a few seconds) with the mutant and PASSES without it. Verify both directions yourself by saving the source change with `git diff > _out/m<k>/patch.diff` and toggling it with `git apply -R _out/m<k>/patch.diff` / `git apply _out/m<k>/patch.diff` (do NOT use `git stash`, `git commit`, `git checkout <branch>` or any other command that writes shared git state: this worktree shares its repository with other people's worktrees).
 Produce up to THREE different mutants that attack different mechanisms behind the property (one good one is better than three weak ones). For mutant k write into `_out/m<k>/`:
   patch.diff   — `git diff` of the non-test source change only (relative to the worktree root, applies with `git apply`)
